@@ -19,18 +19,36 @@ _built = {}
 _build_lock = __import__('threading').Lock()
 
 
+OPTIONAL_VARIANTS = ('strict-c99', 'short-enums', 'ilp32')
+
+
 def build_fieldmon(work, variant='asan'):
     with _build_lock:
         key = (work.dir, variant)
         if key not in _built:
-            _built[key] = _build_fieldmon(work, variant)
+            try:
+                _built[key] = _build_fieldmon(work, variant)
+            except vlib.HarnessError as e:
+                if variant not in OPTIONAL_VARIANTS:
+                    raise
+                _built[key] = None          # an extra configuration that cannot be built here is skipped, not judged
+                SKIPPED.append('%s: %s' % (variant, str(e).splitlines()[0][:200]))
         return _built[key]
+
+
+SKIPPED = []
 
 
 def _build_fieldmon(work, variant='asan'):
     src = fieldmon_sources(work)
     if variant == 'asan':
         return vlib.compile_many(work, 'fieldmon_asan', src, vlib.ASAN_FLAGS)
+    if variant == 'ilp32':               # 32-bit target (the usual home of this library: automotive MCUs)
+        return vlib.compile_ilp32(work, 'fieldmon_ilp32', src)
+    if variant == 'strict-c99':          # the library built in strict ISO mode (CMAKE_C_EXTENSIONS OFF / an embedding project's flags)
+        return vlib.compile_many(work, 'fieldmon_strict_c99', src, ['-O2', '-g'], std='-std=c99')
+    if variant == 'short-enums':         # ABI flag that is the default of bare-metal ARM toolchains
+        return vlib.compile_many(work, 'fieldmon_short_enums', src, ['-O2', '-g', '-fshort-enums'])
     cc, opt = variant.split('-')
     return vlib.compile_many(work, 'fieldmon_%s_%s' % (cc, opt), src, ['-' + opt, '-g'], cc=cc)
 
@@ -57,6 +75,7 @@ ASSUME_COMMON = [
     'spec/wire.spec transcribes IEEE 1722-2016 / acf-vss.md correctly (hand-written, positions derived by summing widths)',
     'reference bit-field model (mon/vpcore.c bf_get/bf_set) is correct',
     'gcc 12 AddressSanitizer/UBSan runtime; arena write monitor sees every byte of an 8 KiB region around the PDU',
+    'additional builds of the same sources: strict -std=c99, -fshort-enums, and a freestanding 32-bit (ILP32) i386 executable with its own runtime layer (mon/platform_ilp32.c)',
     'buffer contents and 64-bit values are sampled (PRNG seeded by VERIF_SEED); fields, paths, header bits and value classes are enumerated',
 ]
 
@@ -80,6 +99,11 @@ def c01(tier, seed):
         named = int(obs.stats.get('nontrivial', 0)) // len(PLACES)
         run_modes(obs, b, [dict(VP_MODE='raw', VP_FORMATS='all', VP_REPS=reps(tier, 128, 4096))], seed)
         raw = int(obs.stats.get('nontrivial', 0)) - named * len(PLACES)
+        # the same corpus with the library built in other language/ABI configurations a user may choose
+        # the same corpus with the library built in other language/ABI configurations a user may choose
+        for v in ('strict-c99', 'short-enums', 'ilp32'):
+            vlib.run_variant(obs, build_fieldmon(work, v), [dict(VP_MODE='read', VP_FORMATS='all', VP_REPS=reps(tier, 100, 5000), VP_SAMPLES=0),
+                                                            dict(VP_MODE='raw', VP_FORMATS='all', VP_REPS=64, VP_SAMPLES=0)], seed, v)
         filt(obs, ['read:', 'raw:RAW:get'])
         cov = dict(distinct_nontrivial=named + raw, named_field_paths=named, raw_descriptor_shapes=raw, placements=list(PLACES),
                    rule='(at PDU byte offsets 0, 4, 1 and 2 from a 16-byte boundary) every spec field x {generic, dedicated} path x {zero, ones, checkerboards, field-saturated, field-cleared, '
@@ -104,6 +128,10 @@ def c02(tier, seed):
         named = int(obs.stats.get('nontrivial', 0)) // len(PLACES)
         run_modes(obs, b, [dict(VP_MODE='raw', VP_FORMATS='all', VP_REPS=reps(tier, 128, 4096))], seed)
         raw = int(obs.stats.get('nontrivial', 0)) - named * len(PLACES)
+        # the same corpus with the library built in other language/ABI configurations a user may choose
+        for v in ('strict-c99', 'short-enums', 'ilp32'):
+            vlib.run_variant(obs, build_fieldmon(work, v), [dict(VP_MODE='write', VP_FORMATS='all', VP_REPS=reps(tier, 100, 5000), VP_SAMPLES=0),
+                                                            dict(VP_MODE='raw', VP_FORMATS='all', VP_REPS=64, VP_SAMPLES=0)], seed, v)
         filt(obs, ['write:', 'raw:RAW:set'])
         cov = dict(distinct_nontrivial=named + raw, named_field_paths=named, raw_descriptor_shapes=raw, placements=list(PLACES),
                    rule='(at PDU byte offsets 0, 4, 1 and 2 from a 16-byte boundary) every spec field x {generic, dedicated} path x prior buffers {zero, ones, checkerboards, random} x 14 value '
@@ -151,6 +179,7 @@ def c04(tier, seed):
         # first-call effects: processes whose first library call is the legacy initialiser, with rotated argument order
         lf = [f['id'] for f in S.load()['formats'] if f['legacy'] and f['legacy']['init']]
         run_modes(obs, b, [dict(VP_MODE='init', VP_FORMATS=f, VP_REPS=8, VP_LEGACYFIRST=1, VP_FIRSTARG=a) for f in lf for a in (255, 128, 1, 2, 254)], seed)
+        vlib.run_variant(obs, build_fieldmon(work, 'ilp32'), [dict(VP_MODE='init', VP_FORMATS='all', VP_REPS=reps(tier, 200, 20000), VP_SAMPLES=0, VP_PLACE=pl) for pl in (0, 1)], seed, 'ilp32')
         filt(obs, ['init:'])
         cov = dict(distinct_nontrivial=int(obs.stats.get('nontrivial', 0)), placements=list(PLACES),
                    rule='20 current + 4 legacy initialisers (avtp_cvf_pdu_init for all 256 format_subtype values) x prior contents '
@@ -176,6 +205,7 @@ def c05(tier, seed):
         run_modes(obs, b, dj, seed)
         for v in ('gcc-O2', 'clang-O2') + (('gcc-O3', 'clang-O1', 'gcc-O0') if tier == 'thorough' else ()):
             run_modes(obs, build_fieldmon(work, v), dj, seed, tag='direct-' + v)
+        vlib.run_variant(obs, build_fieldmon(work, 'ilp32'), [dict(VP_MODE='history', VP_FORMATS='all', VP_EPISODES=reps(tier, 100, 5000), VP_SAMPLES=0)] + dj[:1], seed, 'ilp32')
         filt(obs, ['history:', 'direct:'])
         cov = dict(distinct_nontrivial=int(obs.stats.get('history.distinct_histories', 0)),
                    episodes=int(obs.stats.get('history.episodes', 0)), history_ops=int(obs.stats.get('history.ops', 0)),
